@@ -239,6 +239,16 @@ static void parse_once(const std::string& text, const jm::RefResult& ref, const 
   d.Parse(b.p, b.n);
   judge_parse(d, text, ref, cfg, deep);
   if (g_prop == "C03" && ref.ok && !d.HasParseError() && !deep) check_first_dup(d, ref.v, text);
+  if (g_prop == "C03") {
+    // the same text parsed into a document object that has parsed every earlier input of this worker: the value a
+    // text denotes must not depend on what the document object parsed before
+    static Doc* reused = new Doc();
+    static vf::Counter c_reused("c03:parses-into-a-long-lived-reused-document");
+    c_reused.add();
+    reused->Parse(b.p, b.n);
+    std::string rcfg = std::string(cfg) + "(reused document)";
+    judge_parse(*reused, text, ref, rcfg.c_str(), deep);
+  }
 }
 
 static void one_input(const std::string& text) {
